@@ -107,6 +107,13 @@ def run(tier, seed, replay=None):
             jobs.append({"id": len(jobs), "src": text, "opts": {"max_width": 100}, "want": [],
                          "_pid": f"gen/lineends{k}"})
             k += 1
+    # cfg_if! / cfg_match! arms that hold something other than items (file input: the module
+    # resolver scans these macros)
+    for k, body in enumerate(("+", ";", "mod a; +", "1 2 3", "fn f() {} ;", "#[x]", "pub", "mod")):
+        for mac in (f"cfg_if! {{\n    if #[cfg(foo)] {{\n        {body}\n    }}\n}}\n",
+                    f"cfg_match! {{\n    cfg(foo) => {{ {body} }}\n    _ => {{ {body} }}\n}}\n"):
+            jobs.append({"id": len(jobs), "src": mac + "fn  z( ){}\n", "opts": {"max_width": 100},
+                         "want": [], "name": "lib.rs", "_pid": f"gen/cfgarm{k}:{mac[:9]}"})
     for i, text in enumerate(NON_ASCII):
         for d in dk:
             for w in (20, 40, 100):
